@@ -121,6 +121,24 @@ theorem parsePublicKey_rsaBlob (e n : Nat) (he3 : 3 ≤ e) (hodd : e % 2 = 1) (h
   rw [if_neg (by omega)]
   simp
 
+/-- … and with ANYTHING appended it is refused ("trailing junk"): the blob is read as a whole or not at all -/
+theorem parsePublicKey_rsaBlob_trailing (e n : Nat) (he3 : 3 ≤ e) (hodd : e % 2 = 1) (he : e < 16777216)
+    (hn : mpintLen n < 4294967296) (t : Bytes) (ht : t ≠ []) :
+    parsePublicKey (rsaBlob e n ++ t) = .err := by
+  have hel : mpintLen e < 4294967296 := by
+    have := (natBE_spec e).2.2.2.2
+    unfold mpintLen; omega
+  unfold parsePublicKey rsaBlob
+  rw [List.append_assoc, List.append_assoc, parseString_str _ (by decide)]
+  simp only [show strBytes "ssh-rsa" = sshRsa from rfl, if_true]
+  rw [parseInt_mpint e hel]
+  simp only []
+  rw [parseInt_mpint n hn t]
+  simp only [Int.natAbs_natCast]
+  rw [if_neg (bitLen_le_24 e he)]
+  rw [if_neg (by omega)]
+  simp [ht]
+
 /-- THE DSA BLOB: any q, g, y and any 1024-bit p -/
 theorem parsePublicKey_dsaBlob (p q g y : Nat) (hp : Keys.bitLen p = 1024)
     (h1 : mpintLen p < 4294967296) (h2 : mpintLen q < 4294967296) (h3 : mpintLen g < 4294967296)
